@@ -84,6 +84,21 @@ static void *(*h_dyn_f)(void *) = NULL;
 static void *h_dyn_arg = NULL;
 void *clientwr(void *arg);
 unsigned int __wrap_sleep(unsigned int s) { (void)s; return 0; }
+struct h_tramp { void *(*f)(void *); void *arg; };
+#define H_MAXEXIT 64
+static void *volatile h_exited[H_MAXEXIT];
+static volatile int h_nexited = 0;
+static void *h_tramp_run(void *p) {
+    struct h_tramp *tr = (struct h_tramp *)p;
+    void *r = tr->f(tr->arg);
+    if (h_nexited < H_MAXEXIT) h_exited[h_nexited++] = tr->arg;
+    return r;
+}
+static int h_thread_exited(void *arg) {
+    int i;
+    for (i = 0; i < h_nexited; i++) if (h_exited[i] == arg) return 1;
+    return 0;
+}
 int __wrap_pthread_create(pthread_t *t, const pthread_attr_t *a, void *(*f)(void *), void *arg) {
     verif_thread_count++;
     if (f == clientwr && arg && ((struct server *)arg)->dynamiclookuparg) {
@@ -91,8 +106,12 @@ int __wrap_pthread_create(pthread_t *t, const pthread_attr_t *a, void *(*f)(void
         memset(t, 0, sizeof(*t));
         return 0;
     }
-    if (verif_threads_real)
-        return __real_pthread_create(t, a, f, arg);
+    if (verif_threads_real) {
+        /* started through a trampoline that records when the thread function returns */
+        struct h_tramp *tr = (malloc)(sizeof(*tr));
+        tr->f = f; tr->arg = arg;
+        return __real_pthread_create(t, a, h_tramp_run, tr);
+    }
     memset(t, 0, sizeof(*t));
     return 0;
 }
@@ -272,7 +291,7 @@ static void load_conf(void) {
 static void h_case_begin(void) {
     opidx = 0;
     memset(lk_edge, 0, sizeof(lk_edge)); lk_on = 1;
-    h_nallrq = 0;
+    h_nallrq = 0; h_nexited = 0;
     h_logpath[0] = 0; h_logpos = 0;
     verif_conf_file = NULL; verif_conf_loaded = 0; nrx = 0; nrewrite_names = 0; h_nopipe = 0;
     debug_init("verif");
